@@ -1,9 +1,30 @@
 /-
   C10 -- OpenFOAM output keeps content, drops private keys, carries the Foam header.
+
+    (a) `NoUnderscoreV/Es/Xs`, `C10_underscore` (+V, Xs)     after `remove_underscore_keys_recursive` no dict at any depth,
+                                                             also inside lists, has a key written with a leading `_`
+    (b) `C10_drop_only_underscore`, `C10_drop_list`          exactly the `_` entries go; the others stay, in order,
+        `C10_drop_id` (+V, Xs), `C10_drop_idem` (+V)         values processed recursively; identity without `_` keys; idempotent
+    (c) `C10_no_single_quote`, `C10_no_single_quote_scalar`  the Foam formatter never adds a `'`: per string, per scalar,
+        `NoAposV/Es/Xs`, `C10_no_single_quote_text`          and for the whole text of a dict (any indentation level)
+    (d) `foamHeader_foamFile/_openfoam/_cpp`,                the header contains `FoamFile`, `OpenFOAM`, ` C++ `
+        `makeDefault_foam_nil/_of_not_cpp/_of_cpp/_cases`    `make_default_block_comment` (Foam), all cases
+        `C10_banner_raw`, `C10_banner_first_comment`         no comment: header ++ text; first comment without ` C++ `: header ++ comment
+        `C10_banner`                                         `fmtSD .foam s = some t` (no block comments) ⇒ `removeTrailingSpaces foamHeader <+: t`
+    (e) `C10_input_unchanged`, `C10_fmtPlain_drop`           the text is a function of the private-key-free copy
+    (f) `C10_roundtrip_string`, `C10_roundtrip_string_dropped`   Foam writer → native reader gives `normEs es` on `DomC01 .foam`
+    (g) `exDict…`                                            `{'a': [{'_z': 1, 'y': "it's"}], '_b': 1, 'k': 'x y'}`
+
+  Added hypotheses.  (c) float leaves: `'\'' ∉ lexeme` (part of `NoAposScalar`), as asked.  (d) `C10_banner`: `s.blockC = []`, as
+  asked; `C10_banner_first_comment`: the placeholder entry of the comment occurs in the text (flag of `substPh`, which does not
+  depend on the replacement: `substPh_flag`).  (f) exactly those of `C01.C01_roundtrip_string`, plus `NoUnderscoreEs es`
+  (`C10_roundtrip_string_dropped` replaces it by stating the result for the private-key-free copy).
+
+  Technical note: the kernel evaluates `String.toList` on a long literal very slowly (superlinear); `foamHeader_eq` spells the
+  header's characters out once (checked by `rfl` against the generated string: a literal is definitionally `String.ofList` of
+  its characters) and `foamHeader` is made locally irreducible, so that no tactic unfolds it by accident.
 -/
-import DictIO.Model.NativeFormat
-import DictIO.Props.C04
-import DictIO.Props.C01fmt
+import DictIO.Props.C02main
 
 namespace DictIO.C10
 open DictIO
@@ -531,6 +552,384 @@ theorem C10_input_unchanged (es : Entries) :
 theorem C10_fmtPlain_drop (es : Entries) : fmtPlain .foam (dropUnderscoreEs .foam es) = fmtPlain .foam es := by
   simp only [fmtPlain, C10_drop_idem]
 
+/-! ## (f) Foam string round trip
+
+  The layout proof of `C01fmt` re-run for the Foam flavour on `DomC01 .foam` (strings without `"`: `escapeDq` never
+  acts, every quoted string is `dq s`). -/
+
+namespace Foam
+open DictIO.C01
+
+/-! #### how the Foam writer spells scalars (the flavour-dependent part) -/
+
+/-- on strings without `$` and `"` the Foam writer writes bare or in double quotes, nothing else -/
+theorem formatString_foam_cases {s : Str} (hd : s.contains '$' = false) (hq : s.contains '"' = false) :
+    (formatString .foam s = s ∧ s ≠ [] ∧ s.all (fun c => !isQuote c && !isComplexChar c) = true) ∨
+    formatString .foam s = dq s := by
+  rw [C04.formatString_def]
+  by_cases hne : s = []
+  · subst hne; exact Or.inr rfl
+  · have he : s.isEmpty = false := by simpa using hne
+    cases hqq : s.any isQuote with
+    | true => right; simp only [hd, he, hq, Bool.false_eq_true, if_false, if_true]
+    | false =>
+      cases hc : s.any isComplexChar with
+      | true => right; simp only [hd, he, Bool.false_eq_true, if_false, if_true]
+      | false =>
+        left
+        refine ⟨by simp only [hd, he, Bool.false_eq_true, if_false], hne, (C04.all_plain_iff s).mpr ⟨hqq, hc⟩⟩
+
+theorem writtenLit_str_bare_f {s : Str} (h : formatString .foam s = s) : writtenLit .foam (.str s) = .bare s := by
+  simp [writtenLit, formatScalar, h]
+
+theorem writtenLit_str_dq_f {s b : Str} (h : formatString .foam s = dq b) (hne : dq b ≠ s) :
+    writtenLit .foam (.str s) = .quoted '"' b := by
+  have hne : (dq b == s) = false := by simpa using hne
+  simp only [writtenLit, formatScalar, h, hne]
+  simp [dq]
+
+theorem isDomStr_foam {s : Str} (h : isDomStr .foam s = true) : isDomStr .native s = true ∧ s.contains '"' = false := by
+  simp only [isDomStr, Bool.and_eq_true, Bool.not_eq_true'] at h ⊢
+  obtain ⟨⟨a, c⟩, d⟩ := h
+  exact ⟨⟨⟨a, trivial⟩, d⟩, c⟩
+
+/-- the text of the written literal is what `format_value` produces — for every scalar -/
+theorem writtenLit_text_f (x : Scalar) : (writtenLit .foam x).tok.text = formatScalar .foam x := by
+  cases x with
+  | str s =>
+    rcases formatString_foam_three s with hf | hf | hf
+    · rw [writtenLit_str_bare_f hf]; simp [Lit.tok, STok.text, formatScalar, hf]
+    · rw [writtenLit_str_dq_f hf (C04.dq_ne s)]; simp [Lit.tok, STok.text, formatScalar, hf, dq]
+    · rw [writtenLit_str_dq_f hf (C04.dq_escape_ne s)]; simp [Lit.tok, STok.text, formatScalar, hf, dq]
+  | int z => rfl
+  | float l => rfl
+  | bool b => rfl
+  | none => rfl
+
+/-- leaves: the written literal means the normalised scalar -/
+theorem den_writtenLit_f {x : Scalar} (h : isDomScalar .foam x = true) : (writtenLit .foam x).den = normScalar x := by
+  cases x with
+  | int z => exact C04.C04_format_parse_int .foam z
+  | float l => exact C04.C04_format_parse_float .foam (pyFloatRepr_bridge h)
+  | bool b => exact C04.C04_format_parse_bool (Or.inr rfl) b
+  | none => exact C04.C04_format_parse_none (Or.inr rfl)
+  | str s =>
+    obtain ⟨hn, hq⟩ := isDomStr_foam h
+    rcases formatString_foam_cases (domStr_no_dollar hn) hq with ⟨hf, _, hall⟩ | hf
+    · rw [writtenLit_str_bare_f hf]
+      obtain ⟨hq, _⟩ := (C04.all_plain_iff s).mp hall
+      have hq' : ∀ c ∈ s, isQuote c = false := fun c hc => by
+        cases hqc : isQuote c with
+        | false => rfl
+        | true => rw [List.any_eq_true.mpr ⟨c, hc, hqc⟩] at hq; cases hq
+      simp only [Lit.den, normScalar]
+      cases hp : parseValue s with
+      | str t => rw [C04.C04_idem hp hq']
+      | int z => rfl
+      | float l => rfl
+      | bool b => rfl
+      | none => rfl
+    · rw [writtenLit_str_dq_f hf (C04.dq_ne s)]; rfl
+
+/-- on the domain the written literal is an admissible source literal -/
+theorem written_ok_f {x : Scalar} (h : isDomScalar .foam x = true) : (writtenLit .foam x).ok = true := by
+  cases x with
+  | int z => exact isSrcWord_intRepr z
+  | float l =>
+    have := pyFloatRepr_numChars (pyFloatRepr_bridge h)
+    exact isSrcWord_of_numChars this.1 this.2
+  | bool b => cases b <;> decide
+  | none => decide
+  | str s =>
+    obtain ⟨hn, hdq⟩ := isDomStr_foam h
+    obtain ⟨_, _, _, _, _, _, _, _, hlast⟩ := isDomStr_iff.mp hn
+    rcases formatString_foam_cases (domStr_no_dollar hn) hdq with ⟨hf, hne, hall⟩ | hf
+    · rw [writtenLit_str_bare_f hf]
+      obtain ⟨hq, hcx⟩ := (C04.all_plain_iff s).mp hall
+      rcases hlast with h1 | h1 | h1 | h1
+      · exact absurd (by simpa using h1) hne
+      · rw [hq] at h1; cases h1
+      · rw [hcx] at h1; cases h1
+      · exact h1
+    · rw [writtenLit_str_dq_f hf (C04.dq_ne s)]
+      exact domStr_quoted hn (by decide) hdq
+
+/-! #### the three structural inductions of `C01fmt` and the assembly, re-run for `.foam`
+
+  (word for word the native proofs; the only flavour-dependent inputs are the four lemmas above and
+  `formatKey_eq_keyStr_f`) -/
+
+/-- the key identity: on the domain `format_key(k)` is `str(k)` -/
+theorem formatKey_eq_keyStr_f {k : Key} (h : isDomKey k = true) : formatKey .foam k = keyStr k := by
+  cases k with
+  | int z => rfl
+  | str s =>
+    simp only [isDomKey, Bool.and_eq_true, Bool.not_eq_true'] at h
+    obtain ⟨hw, _, _, _, _, hch, _⟩ := isSrcWord_iff.mp h.1.1
+    simp only [formatKey, keyStr]
+    refine C04.formatString_of_bare ⟨?_, ?_, ?_⟩
+    · intro hs; subst hs; simp [isWordTok] at hw
+    · cases hc : s.contains '$' with
+      | false => rfl
+      | true => exact absurd rfl (hch _ (List.contains_iff_mem.mp hc)).2.1
+    · refine (C04.all_plain_iff s).mpr ⟨?_, h.2⟩
+      cases hq : s.any isQuote with
+      | false => rfl
+      | true =>
+        obtain ⟨c, hc, hq⟩ := List.any_eq_true.mp hq
+        rw [(hch c hc).1] at hq; cases hq
+
+
+mutual
+  theorem den_srcOfV_f : ∀ (d : Nat) (v : Val), domV .foam d v = true → denSrcV (srcOfV .foam v) = normV v
+    | d, .leaf x, h => by
+      simp only [domV, Bool.and_eq_true] at h
+      simp only [srcOfV, denSrcV, normV, den_writtenLit_f h.1]
+    | d, .dict es, h => by
+      simp only [domV, Bool.and_eq_true, decide_eq_true_eq] at h
+      simp only [srcOfV, denSrcV, normV]
+      rw [den_srcOfEs_f (d + 1) es [] h.1 h.2 (fun _ _ hk => by cases hk)]
+      rfl
+    | d, .list xs, h => by
+      simp only [domV] at h
+      simp only [srcOfV, denSrcV, normV, den_srcOfXs_f (d + 1) xs h]
+  theorem den_srcOfEs_f : ∀ (d : Nat) (es acc : Entries), domEs .foam d es = true → (keys es).Nodup →
+      (∀ k ∈ keys es, k ∉ keys acc) → denSrcEs (srcOfEs .foam es) acc = acc ++ normEs es
+    | _, [], acc, _, _, _ => by simp [srcOfEs, denSrcEs, normEs]
+    | d, (k, v) :: es, acc, h, hn, hdis => by
+      simp only [domEs, Bool.and_eq_true] at h
+      simp only [keys, List.map_cons, List.nodup_cons] at hn
+      simp only [srcOfEs, denSrcEs, domKey_types_back h.1.1, den_srcOfV_f d v h.1.2]
+      have hk : k ∉ keys acc := hdis k (by simp [keys])
+      rw [C07.setKey_of_not_mem k (normV v) acc hk]
+      rw [den_srcOfEs_f d es (acc ++ [(k, normV v)]) h.2 hn.2]
+      · simp [normEs]
+      · intro k' hk' hmem
+        simp only [keys, List.map_append, List.map_cons, List.map_nil, List.mem_append, List.mem_singleton] at hmem
+        rcases hmem with hmem | rfl
+        · exact hdis k' (by simp only [keys, List.map_cons, List.mem_cons]; exact Or.inr hk') hmem
+        · exact hn.1 hk'
+  theorem den_srcOfXs_f : ∀ (d : Nat) (xs : List Val), domXs .foam d xs = true → denSrcXs (srcOfXs .foam xs) = normXs xs
+    | _, [], _ => by simp [srcOfXs, denSrcXs, normXs]
+    | d, v :: xs, h => by
+      simp only [domXs, Bool.and_eq_true] at h
+      simp only [srcOfXs, denSrcXs, normXs, den_srcOfV_f d v h.1, den_srcOfXs_f d xs h.2]
+end
+
+theorem entries_lastDelim_f : ∀ (es : Entries), lastDelim true (srcToksEs (srcOfEs .foam es)) = true
+  | [] => rfl
+  | (k, .leaf x) :: es => by
+    have := entries_lastDelim_f es
+    simp only [srcOfEs, srcOfV, srcToksEs]
+    rw [show ∀ (a b c : STok) l, a :: b :: c :: l = [a, b, c] ++ l from fun _ _ _ _ => rfl, lastDelim_append]
+    simpa [lastDelim, delim_facts] using this
+  | (k, .dict d) :: es => by
+    have := entries_lastDelim_f es
+    simp only [srcOfEs, srcOfV, srcToksEs]
+    rw [show ∀ (a b : STok) l m n, a :: b :: l ++ m ++ n = (a :: b :: l ++ m) ++ n from fun _ _ _ _ _ => by simp,
+      lastDelim_append, show ∀ (a b : STok) l m, a :: b :: l ++ m = (a :: b :: l) ++ m from fun _ _ _ _ => by simp,
+      lastDelim_append]
+    simpa [lastDelim, delim_facts] using this
+  | (k, .list l) :: es => by
+    have := entries_lastDelim_f es
+    simp only [srcOfEs, srcOfV, srcToksEs]
+    rw [show ∀ (a b : STok) l m n, a :: b :: l ++ m ++ n = (a :: b :: l ++ m) ++ n from fun _ _ _ _ _ => by simp,
+      lastDelim_append, show ∀ (a b : STok) l m, a :: b :: l ++ m = (a :: b :: l) ++ m from fun _ _ _ _ => by simp,
+      lastDelim_append]
+    simpa [lastDelim, delim_facts] using this
+
+/-- a list, given its items -/
+theorem lays_list_f {toks : List STok} (pd : Bool) (level : Nat) (inList : Bool) (xs : List Val)
+    (h : Lays false toks (fmtItems .foam level xs.length 0 true xs)) :
+    Lays pd (.word ['('] :: toks ++ (if inList then [.word [')']] else [.word [')'], .word [';']]))
+      (fmtList .foam level inList xs) := by
+  have h1 := lays_line pd level (.word ['(']) (Or.inr (Or.inl delim_facts.2.2.1))
+  have h2 := h1.append h (fun h => by cases h)
+  rw [fmtList]
+  cases inList with
+  | true =>
+    have h3 := h2.append (lays_line false level (.word [')']) (Or.inr (Or.inl delim_facts.2.2.2.1))) (fun h => by cases h)
+    simpa [STok.text] using h3
+  | false =>
+    have h3 := Lays.tok false (g := spaces (4 * level)) (tail := []) (.word [')']) (spaces_ws _) nil_ws
+      (Or.inr (Or.inl delim_facts.2.2.2.1))
+    have h4 := Lays.tok false (g := []) (tail := ['\n']) (.word [';']) nil_ws nl_ws
+      (Or.inr (Or.inl delim_facts.2.2.2.2))
+    have h5 := (h2.append h3 (fun h => by cases h)).append h4 (fun h => by cases h)
+    simpa [STok.text, fline] using h5
+
+mutual
+  theorem lays_items_f : ∀ (d level n idx : Nat) (first : Bool) (xs : List Val), domXs .foam d xs = true →
+      Lays false (srcToksXs (srcOfXs .foam xs)) (fmtItems .foam level n idx first xs)
+    | _, _, _, _, _, [], _ => by
+      simp only [srcOfXs, srcToksXs, fmtItems]
+      exact Lays.ws false nil_ws
+    | d, level, n, idx, first, .list ys :: rest, h => by
+      simp only [domXs, domV, Bool.and_eq_true] at h
+      have h1 := lays_list_f false (level + 1) true ys (lays_items_f (d + 1) (level + 1) ys.length 0 true ys h.1)
+      have h2 := h1.append (lays_items_f d level n (idx + 1) first rest h.2) (fun h => by cases h)
+      simpa [srcOfXs, srcOfV, srcToksXs, srcToksV, fmtItems] using h2
+    | d, level, n, idx, first, .dict es :: rest, h => by
+      simp only [domXs, domV, Bool.and_eq_true] at h
+      have h0 : Lays false [] (fline (level + 1) []) := Lays.ws false (by simp [fline, spaces_ws, isWs_nl])
+      have h1 := lays_line false (level + 1) (.word ['{']) (Or.inr (Or.inl delim_facts.1))
+      have h2 := lays_entries_f (d + 1) (level + 2) es h.1.1
+      have h3 := lays_line false (level + 1) (.word ['}']) (Or.inr (Or.inl delim_facts.2.1))
+      have h4 := lays_items_f d level n (idx + 1) true rest h.2
+      have h5 := (((h0.append h1 (fun h => by cases h)).append h2 (fun _ => by simp [lastDelim, delim_facts])).append h3
+        (fun h => by cases h)).append h4 (fun h => by cases h)
+      simpa [srcOfXs, srcOfV, srcToksXs, srcToksV, fmtItems, text_word] using h5
+    | d, level, n, idx, first, .leaf x :: rest, h => by
+      simp only [domXs, Bool.and_eq_true] at h
+      simp only [srcOfXs, srcOfV, srcToksXs, srcToksV, fmtItems]
+      have hlev : 0 < (if first = true then level + 1 else 1) := by split <;> omega
+      split
+      · have h1 := lays_line false (if first = true then level + 1 else 1) (writtenLit .foam x).tok (Or.inr (Or.inr hlev))
+        have h2 := h1.append (lays_items_f d level n (idx + 1) true rest h.2) (fun h => by cases h)
+        simpa [writtenLit_text_f] using h2
+      · have h1 := Lays.tok false (g := spaces (4 * (if first = true then level + 1 else 1)))
+          (tail := spaces (14 - (formatScalar .foam x).length)) (writtenLit .foam x).tok (spaces_ws _) (spaces_ws _)
+          (Or.inr (Or.inr (spaces_ne (by omega))))
+        have h2 := h1.append (lays_items_f d level n (idx + 1) false rest h.2) (fun h => by cases h)
+        simpa [writtenLit_text_f, fline] using h2
+  theorem lays_entries_f : ∀ (d level : Nat) (es : Entries), domEs .foam d es = true →
+      Lays true (srcToksEs (srcOfEs .foam es)) (fmtEntries .foam level es)
+    | _, _, [], _ => by
+      simp only [srcOfEs, srcToksEs, fmtEntries]
+      exact Lays.ws true nil_ws
+    | d, level, (k, .dict es) :: rest, h => by
+      simp only [domEs, domV, Bool.and_eq_true] at h
+      have h0 := lays_line true level (.word (keyStr k)) (Or.inl rfl)
+      have h1 := lays_line false level (.word ['{']) (Or.inr (Or.inl delim_facts.1))
+      have h2 := lays_entries_f (d + 1) (level + 1) es h.1.2.1
+      have h3 := lays_line false level (.word ['}']) (Or.inr (Or.inl delim_facts.2.1))
+      have h4 := lays_entries_f d level rest h.2
+      have h5 := (((h0.append h1 (fun h => by cases h)).append h2 (fun _ => by simp [lastDelim, delim_facts])).append h3
+        (fun h => by cases h)).append h4 (fun _ => by simp [lastDelim_append, lastDelim, delim_facts])
+      simpa [srcOfEs, srcOfV, srcToksEs, fmtEntries, text_word] using h5
+    | d, level, (k, .list xs) :: rest, h => by
+      simp only [domEs, domV, Bool.and_eq_true] at h
+      have h0 := lays_line true level (.word (keyStr k)) (Or.inl rfl)
+      have h1 := lays_list_f false level false xs (lays_items_f (d + 1) level xs.length 0 true xs h.1.2)
+      have h4 := lays_entries_f d level rest h.2
+      have h5 := (h0.append h1 (fun h => by cases h)).append h4 (fun _ => by simp [lastDelim_append, lastDelim, delim_facts])
+      simpa [srcOfEs, srcOfV, srcToksEs, fmtEntries, text_word] using h5
+    | d, level, (k, .leaf x) :: rest, h => by
+      simp only [domEs, Bool.and_eq_true] at h
+      have h0 := Lays.tok true (g := spaces (4 * level)) (tail := []) (.word (keyStr k)) (spaces_ws _) nil_ws (Or.inl rfl)
+      have h1 := Lays.tok false (g := spaces (max 8 (30 - (keyStr k).length - 4 * level))) (tail := [])
+        (writtenLit .foam x).tok (spaces_ws _) nil_ws (Or.inr (Or.inr (spaces_ne (by omega))))
+      have h2 := Lays.tok false (g := []) (tail := ['\n']) (.word [';']) nil_ws nl_ws (Or.inr (Or.inl delim_facts.2.2.2.2))
+      have h4 := lays_entries_f d level rest h.2
+      have h5 := ((h0.append h1 (fun h => by cases h)).append h2 (fun h => by cases h)).append h4
+        (fun _ => by simp [lastDelim, delim_facts])
+      simpa [srcOfEs, srcOfV, srcToksEs, fmtEntries, text_word, fline, writtenLit_text_f, formatKey_eq_keyStr_f h.1.1] using h5
+end
+
+/-- (1) the writer's top-level reordering does nothing on the domain -/
+theorem hoist_id_f {es : Entries} (h : DomC01 .foam es = true) : hoistPlaceholders es = es := by
+  simp only [DomC01, Bool.and_eq_true] at h
+  have hk := domEs_keys h.1
+  unfold hoistPlaceholders
+  refine filter3_id _ _ es ?_ ?_
+  · intro e he
+    have := hk e he
+    split
+    · next s hs => rw [hs] at this; exact (domKey_not_ph this).1
+    · rfl
+  · intro e he
+    have := hk e he
+    split
+    · next s hs => rw [hs] at this; exact (domKey_not_ph this).2
+    · rfl
+
+/-! ### (2) how scalars and keys are spelled; the written document is well formed -/
+
+
+mutual
+  theorem srcOfV_wf_f : ∀ (d : Nat) (v : Val), domV .foam d v = true → SrcWFV d (srcOfV .foam v) = true
+    | d, .leaf x, h => by
+      simp only [domV, Bool.and_eq_true] at h
+      simp only [srcOfV, SrcWFV, Bool.and_eq_true]
+      exact ⟨written_ok_f h.1, h.2⟩
+    | d, .dict es, h => by
+      simp only [domV, Bool.and_eq_true] at h
+      simp only [srcOfV, SrcWFV]
+      exact srcOf_wf_f (d + 1) es h.1
+    | d, .list xs, h => by
+      simp only [domV] at h
+      simp only [srcOfV, SrcWFV]
+      exact srcOfXs_wf_f (d + 1) xs h
+  /-- (2c) the written document is a well-formed source document -/
+  theorem srcOf_wf_f : ∀ (d : Nat) (es : Entries), domEs .foam d es = true → SrcWFEs d (srcOfEs .foam es) = true
+    | _, [], _ => by simp [srcOfEs, SrcWFEs]
+    | d, (k, v) :: es, h => by
+      simp only [domEs, Bool.and_eq_true] at h
+      simp only [srcOfEs, SrcWFEs, Bool.and_eq_true]
+      exact ⟨⟨⟨domKey_word h.1.1, by rw [domKey_types_back h.1.1]; rfl⟩, srcOfV_wf_f d v h.1.2⟩, srcOf_wf_f d es h.2⟩
+  theorem srcOfXs_wf_f : ∀ (d : Nat) (xs : List Val), domXs .foam d xs = true → SrcWFXs d (srcOfXs .foam xs) = true
+    | _, [], _ => by simp [srcOfXs, SrcWFXs]
+    | d, v :: xs, h => by
+      simp only [domXs, Bool.and_eq_true] at h
+      simp only [srcOfXs, SrcWFXs, Bool.and_eq_true]
+      exact ⟨srcOfV_wf_f d v h.1, srcOfXs_wf_f d xs h.2⟩
+end
+
+theorem den_written_f {es : Entries} (h : DomC01 .foam es = true) : denSrcEs (srcOfEs .foam es) [] = normEs es := by
+  simp only [DomC01, Bool.and_eq_true, decide_eq_true_eq] at h
+  rw [den_srcOfEs_f 1 es [] h.1 h.2 (fun _ _ hk => by cases hk)]
+  rfl
+
+theorem fmt_is_layout_f {es : Entries} (h : DomC01 .foam es = true) :
+    ∃ gaps tail, fmtEntries .foam 0 es = spreadS (srcToksEs (srcOfEs .foam es)) gaps tail ∧
+      GapsOKS (srcToksEs (srcOfEs .foam es)) gaps = true ∧ tail.all isWs = true := by
+  simp only [DomC01, Bool.and_eq_true] at h
+  exact (lays_entries_f 1 0 es h.1).to_spread
+
+
+/-- the Foam writer's text for a dict of the domain without private keys is an admissible layout of the tokens of
+    the written document -/
+theorem fmtPlain_is_layout_f {es : Entries} (h : DomC01 .foam es = true) (hu : NoUnderscoreEs es) :
+    ∃ gaps tail, fmtPlain .foam es = spreadS (srcToksEs (srcOfEs .foam es)) gaps tail ∧
+      GapsOKS (srcToksEs (srcOfEs .foam es)) gaps = true ∧ tail.all isWs = true := by
+  obtain ⟨gaps, tail, e, ok, ht⟩ := fmt_is_layout_f h
+  have hd : domEs .foam 1 es = true := by
+    simp only [DomC01, Bool.and_eq_true] at h; exact h.1
+  rw [C10_input_unchanged, C10_drop_id es hu, hoist_id_f h, e]
+  exact rts_layout _ gaps tail (toksEs_good 1 _ (srcOf_wf_f 1 es hd)) ok ht
+
+end Foam
+
+/-- **C10 (strings, Foam).**  For a dict of the value domain (`DomC01 .foam`: in particular no string leaf contains
+    `"`) without private keys, the text the Foam writer produces (`fmtPlain`: no header) is read back by the native
+    reader — with `comments` on or off — as the dict with the documented element-type normalisation, all side
+    tables empty.  Hypotheses as in `C01.C01_roundtrip_string`. -/
+theorem C10_roundtrip_string {es : Entries} {c : Counter} (comments : Bool) (dir : Str) :
+    DomC01 .foam es = true → NoUnderscoreEs es → C01.DocKeysAbsent' es →
+    C02.countQuotedEs (srcOfEs .foam es) ≤ Gen.counterLimit + 1 → C13.ValidCounter Gen.counterLimit c →
+    ∃ c', parseNative comments dir c (fmtPlain .foam es) = .ok ({ data := normEs es }, c') := by
+  intro h hu hd hn hc
+  have hdom : domEs .foam 1 es = true := by
+    simp only [DomC01, Bool.and_eq_true] at h; exact h.1
+  have hwf := Foam.srcOf_wf_f 1 es hdom
+  have hden := Foam.den_written_f h
+  obtain ⟨gaps, tail, e, hg, ht⟩ := Foam.fmtPlain_is_layout_f h hu
+  refine ⟨(labelEs { counter := c } (srcOfEs .foam es)).1.counter, ?_⟩
+  rw [e, ← hden]
+  refine C02.C02_layout_tolerant_gen comments dir hwf hg ht hc hn ?_ ?_
+  · rw [hden]; exact C01.norm_lookup_none fun e he => (hd e he).1
+  · rw [hden]; exact C01.norm_lookup_none fun e he => (hd e he).2
+
+/-- with private keys in the dict, what comes back is the normalised dict *without* them -/
+theorem C10_roundtrip_string_dropped {es : Entries} {c : Counter} (comments : Bool) (dir : Str)
+    (h : DomC01 .foam (dropUnderscoreEs .foam es) = true) (hd : C01.DocKeysAbsent' (dropUnderscoreEs .foam es))
+    (hn : C02.countQuotedEs (srcOfEs .foam (dropUnderscoreEs .foam es)) ≤ Gen.counterLimit + 1)
+    (hc : C13.ValidCounter Gen.counterLimit c) :
+    ∃ c', parseNative comments dir c (fmtPlain .foam es) =
+      .ok ({ data := normEs (dropUnderscoreEs .foam es) }, c') := by
+  rw [← C10_fmtPlain_drop]
+  exact C10_roundtrip_string comments dir h (C10_underscore es) hd hn hc
+
 /-! ## (g) non-vacuity: `{'a': [{'_z': 1, 'y': "it's"}], '_b': 1, 'k': 'x y'}` -/
 
 def exDict : Entries :=
@@ -583,5 +982,43 @@ example : ∃ t, fmtSD .foam { data := exDict } = some t ∧ removeTrailingSpace
   refine ⟨_, rfl, C10_banner { data := exDict } rfl _ rfl⟩
 
 example (txt : Str) : insertBlockComments .foam [] txt = foamHeader ++ txt := C10_banner_raw txt
+
+/-- (f): the example (private keys and all) is written as this text — double quotes where the native writer uses
+    single ones — and read back as the dict without its private keys -/
+theorem exDropped_dom : DomC01 .foam exDropped = true := by decide +kernel
+
+/-- the raw text (before trailing-space removal: the line in front of `{` consists of blanks) -/
+theorem exDropped_raw : fmtEntries .foam 0 exDropped = C01.unlines
+    ["a",
+     "(",
+     "    ",
+     "    {",
+     "        y                     \"it's\";",
+     "    }",
+     ");",
+     "k                             \"x y\";"] := by
+  simp only [exDropped, fmtEntries, fmtList, fmtItems, formatKey, keyStr, formatScalar]
+  decide +kernel
+
+theorem exDict_text : fmtPlain .foam exDict = C01.unlines
+    ["a",
+     "(",
+     "",
+     "    {",
+     "        y                     \"it's\";",
+     "    }",
+     ");",
+     "k                             \"x y\";"] := by
+  rw [← C10_fmtPlain_drop, exDict_dropped, C10_input_unchanged, C10_drop_id _ exDropped_noUnderscore,
+    Foam.hoist_id_f exDropped_dom, exDropped_raw]
+  decide +kernel
+
+theorem exDict_roundtrip (comments : Bool) (dir : Str) :
+    ∃ c', parseNative comments dir none (fmtPlain .foam exDict) = .ok ({ data := exDropped }, c') := by
+  have h := C10_roundtrip_string_dropped (es := exDict) (c := none) comments dir
+    (by rw [exDict_dropped]; exact exDropped_dom) (by rw [exDict_dropped]; decide)
+    (by rw [exDict_dropped]; decide +kernel) (Or.inl rfl)
+  rw [exDict_dropped] at h
+  rwa [show normEs exDropped = exDropped by decide +kernel] at h
 
 end DictIO.C10
